@@ -1072,6 +1072,31 @@ func genTwccWrapValid(r *Rng) []byte {
 	return append(hdr, body...)
 }
 
+// genTwccWrapValue: the value whose encoding genTwccWrapValid writes by hand (status count just below 65536, final
+// status-vector chunk running past it), with a header consistent with the content
+func genTwccWrapValue(r *Rng) *rtcp.TransportLayerCC {
+	short := 1 + r.Intn(8)
+	last := 1 + r.Intn(minInt(6, 14-short))
+	count := 65536 - short
+	nd := 16
+	t := &rtcp.TransportLayerCC{SenderSSRC: uint32(r.U64()), MediaSSRC: uint32(r.U64()), BaseSequenceNumber: uint16(r.U64()),
+		PacketStatusCount: uint16(count), ReferenceTime: uint32(r.Bits(24, 24)), FbPktCount: uint8(r.U64())}
+	t.PacketChunks = append(t.PacketChunks, &rtcp.RunLengthChunk{PacketStatusSymbol: 1, RunLength: uint16(nd)})
+	for left := count - last - nd; left > 0; {
+		n := minInt(left, 8191)
+		t.PacketChunks = append(t.PacketChunks, &rtcp.RunLengthChunk{PacketStatusSymbol: 0, RunLength: uint16(n)})
+		left -= n
+	}
+	t.PacketChunks = append(t.PacketChunks, &rtcp.StatusVectorChunk{Type: 1, SymbolSize: 0, SymbolList: make([]uint16, 14)})
+	for i := 0; i < nd; i++ {
+		t.RecvDeltas = append(t.RecvDeltas, &rtcp.RecvDelta{Type: 1, Delta: 250 * int64(r.Pick(1, 31, 255))})
+	}
+	size := t.MarshalSize()
+	pl := int(rtcp.VerifTWCCPacketLen(t))
+	t.Header = rtcp.Header{Padding: size != pl, Count: rtcp.FormatTCC, Type: rtcp.TypeTransportSpecificFeedback, Length: uint16(size/4 - 1)}
+	return t
+}
+
 // dirtyXRHeaders: the embedded XRHeader of a block is an OUTPUT of Marshal (block type, type-specific octet, block
 // length are filled in): whatever an earlier Marshal or Unmarshal left there must not show in the encoding
 func dirtyXRHeaders(r *Rng, p rtcp.Packet) rtcp.Packet {
